@@ -29,12 +29,15 @@ def forests() -> list[tuple[list[Any], list[list[tuple]]]]:
         ([R("LMix", {"v": 0}, first=L(1), items=(L(2), L(3)), one=L(4)), L(2)], [[[], [("first", None)], [("items", 1)], [("one", None)]], [[]]]),
         ([R("LList", elems=[L(1), R("LOpt", one=L(2))]), R("LOpt", one=None)], [[[], [("elems", 0)], [("elems", 1)], [("elems", 1), ("one", None)]], [[]]]),
         ([R("LNarrow", only=L(1)), R("LTup", items=(L(2),))], [[[], [("only", None)]], [[], [("items", 0)]]]),
+        # a node with two sequence child fields: an index alone does not identify a position
+        ([R("LTwoSeq", body=(L(1), L(2)), orelse=[L(3), R("LOpt", one=L(4)), L(5)]), L(6)], [[[], [("body", 0)], [("body", 1)], [("orelse", 1)], [("orelse", 2)]], [[]]]),
         # nodes that are falsy in a boolean context (used by the `falsy-nodes` families only)
         ([R("LTup", items=(R("LFalsy", {"v": 1}), R("LOpt", one=R("LFalsy", {"v": 2})))), R("LFalsy", {"v": 3}), L(4)], [[[], [("items", 0)], [("items", 1)], [("items", 1), ("one", None)]], [[]], [[]]]),
     ]
 
 
-FALSY_FOREST = 4
+FALSY_FOREST = 5
+GUIDED_FORESTS = 4  # the guided families run on the first four forests
 
 
 def _kids(n: Any) -> list[tuple[Any, str, int | None]]:
